@@ -4,10 +4,10 @@
 id="$1"; dir=/verif/seeded/$id; wt=/tmp/sv/$id
 mkdir -p /tmp/sv; rm -rf "$wt"; git -C /repo worktree add -q --detach "$wt" HEAD || exit 2
 res() { echo "$1"; }
-d0=$(/tmp/mut/rundemo.sh "$wt" "$dir/demo.py" >/tmp/sv/$id.demo0.log 2>&1; echo $?)
+d0=$(/verif/tools/rundemo.sh "$wt" "$dir/demo.py" >/tmp/sv/$id.demo0.log 2>&1; echo $?)
 if git -C "$wt" apply --check "$dir/patch.diff" 2>/dev/null; then ap=ok; git -C "$wt" apply "$dir/patch.diff"; else ap=FAIL; fi
-d1=$(/tmp/mut/rundemo.sh "$wt" "$dir/demo.py" >/tmp/sv/$id.demo1.log 2>&1; echo $?)
-t=$(/tmp/mut/runtests.sh "$wt" >/tmp/sv/$id.tests.log 2>&1; echo $?)
+d1=$(/verif/tools/rundemo.sh "$wt" "$dir/demo.py" >/tmp/sv/$id.demo1.log 2>&1; echo $?)
+t=$(/verif/tools/runtests.sh "$wt" >/tmp/sv/$id.tests.log 2>&1; echo $?)
 tl=$(tail -1 /tmp/sv/$id.tests.log)
 echo "$id apply=$ap demo_without=$d0 demo_with=$d1 tests_rc=$t [$tl]" > /tmp/sv/$id.result
 git -C /repo worktree remove --force "$wt"
